@@ -434,7 +434,7 @@ def nextSubdirL (L : Limits) (md : Maildir) : Prog (Maildir × Bool) :=
 
 /-- `maildir_read` + `maildir_next`: the walk over `new` then `cur` (or the spool). -/
 def walkL (L : Limits) (env : PEnv) (orc : EvalOracles) (expr : Expr) : Nat → Maildir → MainSt → Prog (MainSt × Maildir)
-  | 0, md, st => pure (st, md)
+  | 0, md, st => pure ({ st with fuelOut := true }, md)
   | fuel + 1, md, st =>
     match md.dirH with
     | none => pure (st, md)
@@ -503,22 +503,22 @@ def pathsL (L : Limits) (env : PEnv) (orc : EvalOracles) (input : Bytes) (b : Co
     else if isStdinPath p then do
       let (md, failed, spooled) ← maildirStdinL L env input
       if failed then
-        closeStdin md
-        pathsL L env orc input b more { st with error := true }
+        let fo ← closeStdin (stdinFuel env) md
+        pathsL L env orc input b more (orFuel { st with error := true } fo)
       else
         let st1 := match spooled with
           | some n => { st with files := st.files.put md.path n input }
           | none => st
-        let (st2, md2) ← walkL L env orc b.expr 64 md st1
-        closeStdin md2
-        pathsL L env orc input b more st2
+        let (st2, md2) ← walkL L env orc b.expr (stdinFuel env) md st1
+        let fo ← closeStdin (stdinFuel env) md2
+        pathsL L env orc input b more (orFuel st2 fo)
     else do
       let o ← openMaildirL L p
       match o with
       | none => pathsL L env orc input b more { st with error := true }
       | some md =>
         let n := (st.files.filter fun e => e.1 == md.path || e.1 == (md.root ++ [47] ++ subdirName .cur)).length
-        let (st2, md2) ← walkL L env orc b.expr (2 * n + 8) md st
+        let (st2, md2) ← walkL L env orc b.expr (2 * n + 8 + env.extraFuel) md st
         maildirClose md2
         pathsL L env orc input b more st2
 
